@@ -112,7 +112,7 @@ def main():
                     dirs.add(d)
             # nested dirs are covered by their parents
             dirs = sorted(d for d in dirs if not any(d != e and d.startswith(e + "/") for e in dirs))
-            cmd = f"{PY} -m pytest -q -p no:cacheprovider -x --timeout=900 " + " ".join(dirs)
+            cmd = f"{PY} -m pytest -q -p no:cacheprovider -x --timeout=3000 " + " ".join(dirs)
             t0 = time.time()
             rc, out = sh(cmd, cwd=wt, timeout=3000)
             tail = [l for l in clean(out).splitlines() if re.search(r"passed|failed|error", l)][-1:]
